@@ -52,7 +52,7 @@ def fstring_parts(ev, m, node) -> Optional[List]:
                 if v.format_spec is not None or v.conversion not in (-1, 115):
                     return None
                 e = v.value
-                if isinstance(e, (ast.JoinedStr, ast.BinOp)):
+                if isinstance(e, (ast.JoinedStr, ast.BinOp)) or (isinstance(e, ast.Call) and isinstance(e.func, ast.Attribute) and e.func.attr == "join"):
                     sub = fstring_parts(ev, m, e)
                     if sub is not None:
                         out.extend(sub)
@@ -77,6 +77,12 @@ def fstring_parts(ev, m, node) -> Optional[List]:
     # <separator>.join(<sequence of string expressions>)
     if isinstance(node, ast.Call) and isinstance(node.func, ast.Attribute) and node.func.attr == "join" and len(node.args) == 1 and not node.keywords:
         sep = fstring_parts(ev, m, node.func.value)
+        if sep is None:
+            try:
+                sv = ev.eval(node.func.value, m)
+                sep = [("lit", sv)] if isinstance(sv, str) else None
+            except Unknown:
+                sep = None
         items = _sequence_items(ev, m, node.args[0])
         if sep is None or items is None or not all(k == "lit" for k, _ in sep):
             return None
